@@ -11,28 +11,30 @@ import (
 // replay file contains. The schedule is Seed (PRNG) preceded by the explicit
 // Choices prefix.
 type Scenario struct {
-	Prop       string         `json:"prop"`
-	Seed       uint64         `json:"seed"`
-	Faulty     bool           `json:"faulty"`
-	Skip       bool           `json:"skip_initial_verification,omitempty"`
-	Delay      bool           `json:"delay_initial_verification,omitempty"`
-	Suppress   bool           `json:"suppress_global_callbacks,omitempty"`
-	NoVerify   bool           `json:"no_verify_method,omitempty"`
-	NoGlobalCB bool           `json:"no_global_callbacks,omitempty"` // Params.OnNewConfig / OnWatchedError left nil
-	Defaults   Part           `json:"defaults"`
-	Sources    []SourceSpec   `json:"sources"`
-	Clients    []ClientSpec   `json:"clients"`
-	GlobalCB   string         `json:"global_cb"` // instant | slow | block
-	Bias       simrt.Bias     `json:"bias"`
-	Shutdown   string         `json:"shutdown"` // cancel | done
-	Late       bool           `json:"late_calls,omitempty"`
-	MaxSteps   int            `json:"max_steps"`
-	Rates      map[string]int `json:"fault_rates,omitempty"`
-	Choices    []int          `json:"choices,omitempty"`
-	File       *FileSpec      `json:"file,omitempty"`
-	Ez         *EzSpec        `json:"ez,omitempty"`
-	Stream     *StreamSpec    `json:"stream,omitempty"`
-	Wrap       *WrapSpec      `json:"wrap,omitempty"`
+	Prop        string         `json:"prop"`
+	Seed        uint64         `json:"seed"`
+	Faulty      bool           `json:"faulty"`
+	Skip        bool           `json:"skip_initial_verification,omitempty"`
+	Delay       bool           `json:"delay_initial_verification,omitempty"`
+	Suppress    bool           `json:"suppress_global_callbacks,omitempty"`
+	NoVerify    bool           `json:"no_verify_method,omitempty"`
+	NoGlobalCB  bool           `json:"no_global_callbacks,omitempty"` // Params.OnNewConfig / OnWatchedError left nil
+	FlakyVerify bool           `json:"flaky_verify,omitempty"`        // Verify is not a pure function of the config: once verification has been switched on, verifying an already installed config again fails
+	VerifyStall int            `json:"verify_stall,omitempty"`        // the n-th Verify call keeps the monitor busy until everybody else is idle (0: none)
+	Defaults    Part           `json:"defaults"`
+	Sources     []SourceSpec   `json:"sources"`
+	Clients     []ClientSpec   `json:"clients"`
+	GlobalCB    string         `json:"global_cb"` // instant | slow | block
+	Bias        simrt.Bias     `json:"bias"`
+	Shutdown    string         `json:"shutdown"` // cancel | done
+	Late        bool           `json:"late_calls,omitempty"`
+	MaxSteps    int            `json:"max_steps"`
+	Rates       map[string]int `json:"fault_rates,omitempty"`
+	Choices     []int          `json:"choices,omitempty"`
+	File        *FileSpec      `json:"file,omitempty"`
+	Ez          *EzSpec        `json:"ez,omitempty"`
+	Stream      *StreamSpec    `json:"stream,omitempty"`
+	Wrap        *WrapSpec      `json:"wrap,omitempty"`
 }
 
 type SourceSpec struct {
@@ -302,6 +304,9 @@ func knobsFor(prop string, faulty bool) knobs {
 			k.cancellers = 60
 			k.pDeadline = 15
 			k.pExpired = 8
+			// with every watcher Done the monitor is gone while the Config
+			// context lives on: a blocking call then ends with ITS context
+			k.doneOps = 20
 		}
 	case "C08":
 		k.lifecycle = true
@@ -426,6 +431,13 @@ func genCore(prop string, seed uint64, faulty bool) *Scenario {
 
 	if (prop == "C06" && g.pct(25)) || g.pct(6) {
 		sc.NoGlobalCB = true
+	}
+	if faulty && !sc.Skip && !sc.Delay && (prop == "C07" || prop == "C08") && g.pct(15) {
+		sc.VerifyStall = g.in(2, 4) // (the first call is Config's own)
+	}
+	if sc.Delay && nWatch > 0 && g.pct(25) {
+		// (certificate expiry, "file exists", ...: a config that passed may fail later)
+		sc.FlakyVerify = true
 	}
 	if g.pct(k.cbSlow) {
 		sc.GlobalCB = "slow"
